@@ -48,6 +48,7 @@ def _(c):
               POOL_DISTINCT % {'pool': 'self.transaction_pool'})
     c.always("same(self.coinstate, cs)")
     c.on_raise("same(self.transaction_pool, pool0)")
+    c.modifies("self.transaction_pool")
 
 
 @MG.contract("skepticoin.networking.manager.ChainManager._cleanup_transaction_pool_for_coinstate", props=["C13"])
@@ -65,6 +66,7 @@ def _(c):
         " for j in range(len(pool0)))",
         "all(G.member(self.transaction_pool[k], pool0) for k in range(len(self.transaction_pool)))")
     c.always("same(self.coinstate, cs0)")
+    c.modifies("self.transaction_pool")
 
 
 @MG.contract("skepticoin.networking.manager.ChainManager.set_coinstate", props=["C13"])
@@ -80,4 +82,6 @@ def _(c):
         "all(implies(G.tx_in_state(pool0[j], coinstate.current_chain_hash, coinstate), G.member(pool0[j], self.transaction_pool))"
         " for j in range(len(pool0)))",
         "all(G.member(self.transaction_pool[k], pool0) for k in range(len(self.transaction_pool)))",
-        "implies(validated, self.last_known_valid_coinstate is not None and same(self.last_known_valid_coinstate, coinstate))")
+        "implies(validated, self.last_known_valid_coinstate is not None and same(self.last_known_valid_coinstate, coinstate))",
+        "implies(not validated, same(self.last_known_valid_coinstate, old(self.last_known_valid_coinstate)))")
+    c.modifies("self.coinstate", "self.transaction_pool", "self.last_known_valid_coinstate")
